@@ -26,7 +26,7 @@ from harness import core
 from harness.extract import units as EX
 
 MANIFEST_ENTRY = {
-    "text": "Lean theorems over the generator model prove, for every pair of Bernoulli outcome lists, duration, multi-emission flag and pre-simulation setting: start dates within [start - duration, end] (date_bounds), none before the period when pre-simulation emissions are off (no_presim_when_disabled), starts of a single-emission source more than `duration` apart (no_overlap_single), ids 0..n-1 unique (ids_unique), pending list popped in strictly increasing start order (generate_sorted). Over exact rationals and the unit tables regenerated from unit_converter.py on every run: gas_convert is linear (convert_linear), converts any SI-written rate back to the same g/s value for every Consistent table (unit_invariance, rate_invariance), capped rates never exceed the converted maximum (cap_respected, cap_respected_dist with the table-positivity obligation), all 56 unit pairs convert with a positive factor; the current table is proved NOT consistent (seconds per year 31 540 000: known finding F10b) and what does hold of it is proved for every quantity: both rate sources return exactly 7884/7885 (1 for per-second units) times the capped physical rate, so SI units sharing a time unit agree exactly (si_drift_all, real_table_rates, same_increment_same_rates, per_second_rates_exact); mscf converts to exactly 353147/353100 of 1000 cubic feet (Units.mscf_drift, F10d); pound, cubic feet, liter, week, month, year are within 2e-6 of their independent legal/SI definitions (Units.non_si_entries_within_tolerance); the seed-index expressions of both generation loops of initialize_emissions are extracted from the AST and proved to be the simulation number (EmisSeed.seed_index_is_simulation_number), from which seeds drawn by randint(0,255) collide for certain beyond 255 simulations and may collide before (seeds_collide_beyond_range, seeds_distinct_counterexample: known finding F10c); after any history of fresh runs, extensions and smaller runs on one generator folder simulation i holds the scenario of emis_preseed_val[i], existing pickles are untouched by an extension and distinct seeds give distinct scenarios (extension_seed_index, extension_preserves_existing, extension_distinct); C16_partial / C16_counterexample. Models are tied to the real Source.generate_emissions, gas_convert (run on exact rationals), EmissionsSource classes built by the real reader from generated emissions files in all 56 units, gen_seed_emis and initialize_emissions (single runs and multi-step folder histories with the applied seed recorded per simulation number) by differential correspondence on every run; each clause of the property is evaluated directly on the implementation outputs.",
+    "text": "Lean theorems over the generator model prove, for every pair of Bernoulli outcome lists, duration, multi-emission flag and pre-simulation setting: start dates within [start - duration, end] (date_bounds), none before the period when pre-simulation emissions are off (no_presim_when_disabled), starts of a single-emission source more than `duration` apart (no_overlap_single), ids 0..n-1 unique (ids_unique), pending list popped in strictly increasing start order (generate_sorted). Over exact rationals and the unit tables regenerated from unit_converter.py on every run: gas_convert is linear (convert_linear), converts any SI-written rate back to the same g/s value for every Consistent table (unit_invariance, rate_invariance), capped rates never exceed the converted maximum (cap_respected, cap_respected_dist with the table-positivity obligation), all 56 unit pairs convert with a positive factor; the current table is proved NOT consistent (seconds per year 31 540 000: known finding F10b) and what does hold of it is proved for every quantity: both rate sources return exactly 7884/7885 (1 for per-second units) times the capped physical rate, so SI units sharing a time unit agree exactly (si_drift_all, real_table_rates, same_increment_same_rates, per_second_rates_exact); mscf converts to exactly 353147/353100 of 1000 cubic feet (Units.mscf_drift, F10d); pound, cubic feet, liter, week, month, year are within 2e-6 of their independent legal/SI definitions (Units.non_si_entries_within_tolerance); the seed-index expressions of both generation loops of initialize_emissions are extracted from the AST and proved to be the simulation number (EmisSeed.seed_index_is_simulation_number), from which seeds drawn by randint(0,255) collide for certain beyond 255 simulations and may collide before (seeds_collide_beyond_range, seeds_distinct_counterexample: known finding F10c); after any history of fresh runs, extensions and smaller runs on one generator folder simulation i holds the scenario of emis_preseed_val[i], existing pickles are untouched by an extension and distinct seeds give distinct scenarios (extension_seed_index, extension_preserves_existing, extension_distinct); a table of class-/module-level containers, caches and copy hooks of the five modelled modules is extracted on every run and must show no state that survives between cases and a Source.__reduce__ argument order equal to _reconstruct's (GenState.no_cross_case_state); C16_partial / C16_counterexample. Models are tied to the real Source.generate_emissions, gas_convert (run on exact rationals), EmissionsSource classes built by the real reader from generated emissions files in all 56 units, gen_seed_emis and initialize_emissions (single runs and multi-step folder histories with the applied seed recorded per simulation number) by differential correspondence on every run; each clause of the property is evaluated directly on the implementation outputs (calendar dates read with datetime arithmetic, boundary periods - 1/2-day, Dec 31/Jan 1, Feb 28/29, day 366, whole-year shifts - generated on purpose); same-process histories (emissions files with colliding column names in both orders against the same file loaded alone in a fresh interpreter, reused and same-named Source objects, shared input dictionaries/lists/frames, pickling round trips) and emissions files with unusual column names and shapes are run on every check; a crash or an unexpected shape of the real code becomes a violation with its input or a broken obligation, never an infrastructure exit.",
     "design_ref": "DESIGN.md 5.16",
     "note": "trusted: Lean kernel + propext/Classical.choice/Quot.sound; hand-written models tied by sampled correspondence; the ast extractor of the unit tables (cross-checked against the imported module on every run); float results of the rate-source classes are compared with the exact model inside a rounding envelope of 2^-40 relative (the function itself is compared exactly on rationals); non-SI units (pound, cubic feet, week, month, year) are written as defined by the table, whose entries are bounded against independent definitions at 2e-6 (Lean obligation + harness check), mscf as 1000 cubic feet; a unit deviation is filed under a known finding only when its ratio equals the proved drift within 1e-9; the injectivity seed -> scenario assumed by distinct_scenarios_partial / extension_distinct is measured (evidence: injectivity_assumption) and fails by construction for production rate 0; distributional correctness of the draws and of scipy/numpy is outside this check; 'different scenarios' is checked as distinct seeds + observed scenario inequality on non-degenerate configurations",
     "technique": "Lean 4 proofs over an executable generator / converter model + tables regenerated from source + differential correspondence with the real classes + direct oracle",
@@ -103,6 +103,24 @@ def rel_diff(a, b):
     return abs(a - b) / max(abs(a), abs(b))
 
 
+def real_crash(ctx, component, e, inp):
+    """the real code raised on a valid input: never an infrastructure error, never a silent skip.  Consistency
+    checks of the adapters (RuntimeError: the code no longer has the shape the adapter drives) become a broken
+    obligation, anything else a violation with the input; the search continues."""
+    import traceback as _tb
+    if isinstance(e, core.InfraError):
+        raise e
+    if isinstance(e, RuntimeError):
+        if sum(1 for b in ctx.broken if b["obligation"].startswith("adapter shape")) < 5:
+            ctx.broke(f"adapter shape: {component}", f"{e} | input {inp}")
+        ctx.count("adapter-shape:" + component)
+        return
+    ctx.violate(f"C16:crash:{component}:{type(e).__name__}",
+                f"the real code raised {type(e).__name__} on a valid input: {str(e)[:160]}",
+                dict(inp, traceback=_tb.format_exc()[-600:]))
+    ctx.count("crash:" + component)
+
+
 class Model:
     """the compiled Lean driver; if it could not be built the model side is skipped (the broken
     build is already recorded) and only the oracles run"""
@@ -159,7 +177,7 @@ def check_tables(ctx, G, M, u, s):
                 f"sub={enl(t['substances'])} temp={enl(t['temperature_units'])} pres={enl(t['pressure_units'])}")
         if names[0] != want:
             ctx.disagree("generated-table", "names", names[0], want)
-        if names[1] != f"{s['low']} {s['high']}":
+        if s is not None and names[1] != f"{s['low']} {s['high']}":
             ctx.disagree("generated-table", "seedrange", names[1], f"{s['low']} {s['high']}")
     ctx.evaluations += 1
 
@@ -405,23 +423,85 @@ def run_rate_sources(ctx, G, M, u, tmp):
 # ------------------------------------------------------------------------------------------------
 # part D: generation
 # ------------------------------------------------------------------------------------------------
+BOUNDARY_STARTS = ["2023-12-31", "2024-01-01", "2024-02-28", "2024-02-29", "2024-03-01", "2023-02-28", "2023-03-01",
+                   "2024-12-31", "2022-07-15", "2024-12-30", "2023-01-02", "2020-02-29"]
+
+
+def case_start(c):
+    from datetime import date as _d
+    return _d.fromisoformat(c[8]) if len(c) > 8 and c[8] else None
+
+
 def gen_cases(ctx):
+    """(duration, multi, pre-sim, N, p, numpy seed, repairable, persistent, start date or None)"""
     rng = ctx.rng
     cases = []
     ps = [0.0, 1.0, 0.5, 0.5, 0.3, 0.8, 0.1]
-    for _ in range(ctx.pick(45000, 600000)):
+    for _ in range(ctx.pick(40000, 500000)):
         cases.append((rng.randint(0, 5), rng.random() < 0.4, rng.random() < 0.7, rng.randint(1, 8),
-                      rng.choice(ps), rng.randrange(2 ** 31), rng.random() < 0.7, rng.random() < 0.8))
+                      rng.choice(ps), rng.randrange(2 ** 31), rng.random() < 0.7, rng.random() < 0.8,
+                      rng.choice(BOUNDARY_STARTS) if rng.random() < 0.3 else None))
     for _ in range(ctx.pick(800, 15000)):
         dur = rng.choice([1, 7, 30, 90, 365, rng.randint(1, 500)])
         cases.append((dur, rng.random() < 0.4, rng.random() < 0.7, rng.choice([1, 30, 365, 730, rng.randint(1, 900)]),
                       rng.choice([0.0, 1.0, 0.0065, 0.05, 0.5, rng.random()]), rng.randrange(2 ** 31),
-                      rng.random() < 0.7, rng.random() < 0.8))
+                      rng.random() < 0.7, rng.random() < 0.8, rng.choice(BOUNDARY_STARTS) if rng.random() < 0.3 else None))
+    # boundary dates and periods on purpose: 1- and 2-day periods, periods ending on / straddling Dec 31, Feb 28/29,
+    # day 366, durations of exactly a (leap) year, pre-period windows that reach back across New Year
+    grid = [(st, n, dur) for st in BOUNDARY_STARTS for n in (1, 2, 3, 59, 60, 365, 366, 367)
+            for dur in (0, 1, 2, 30, 365, 366)]
+    rng.shuffle(grid)
+    for (st, n, dur) in grid[:ctx.pick(220, len(grid))]:
+        cases.append((dur, rng.random() < 0.5, rng.random() < 0.8, n, rng.choice([1.0, 0.5, 0.05, 0.3]),
+                      rng.randrange(2 ** 31), True, True, st))
     return cases
 
 
+def calendar_oracle(ctx, c, out):
+    """reads the emissions' own calendar dates (ISO strings) with datetime.date arithmetic only"""
+    from datetime import date as _d, timedelta as _td
+    (dur, multi, pre_en, n) = c[:4]
+    start = case_start(c) or _d(2022, 1, 1)
+    end = start + _td(days=n - 1)
+    ds = [_d.fromisoformat(x) for x in out["dates"]]
+    inp = {"kind": "gen-case", "case": list(c), "dates": out["dates"], "period": [start.isoformat(), end.isoformat()]}
+    if any(not (start - _td(days=dur) <= d <= end) for d in ds):
+        ctx.violate("C16:date-bounds:calendar", "emission start date outside [period start - duration, period end] (calendar)", inp)
+    if not pre_en and any(d < start for d in ds):
+        ctx.violate("C16:presim-disabled:calendar", "emission dated before the period although pre-simulation emissions are disabled", inp)
+    if len(set(ds)) != len(ds):
+        ctx.violate("C16:calendar:duplicate-date", "two emissions of one source start on the same calendar date", inp)
+    if not multi:
+        asc = sorted(ds)
+        if any(b <= a + _td(days=dur) for a, b in zip(asc, asc[1:])):
+            ctx.violate("C16:overlap-single:calendar", "single-emission source: natural lifetimes overlap (calendar)", inp)
+    for d in ds:
+        ctx.count("calendar:" + ("dec31" if (d.month, d.day) == (12, 31) else "jan1" if (d.month, d.day) == (1, 1)
+                                 else "feb29" if (d.month, d.day) == (2, 29) else "other"))
+
+
+def one_year_twin(ctx, G, c, out, rs):
+    """the same period shifted by exactly one calendar year (same length, same draws) gives the same offsets"""
+    from datetime import date as _d
+    st = case_start(c)
+    if st is None:
+        return
+    try:
+        st2 = _d(st.year + 1, st.month, st.day)
+    except ValueError:
+        st2 = _d(st.year + 4, st.month, st.day)        # Feb 29: the next leap year
+    (dur, multi, pre_en, n, p, seed, rep, pers) = c[:8]
+    twin = G.run_generate(dur, multi, pre_en, n, p, seed, rs, rate_key="smp", repairable=rep, persistent=pers, sim_start=st2)
+    ctx.evaluations += 1
+    if [(a, b) for (a, b, _, _) in twin["ems"]] != [(a, b) for (a, b, _, _) in out["ems"]] or twin["pre"] != out["pre"] \
+            or twin["sim"] != out["sim"]:
+        ctx.violate("C16:calendar:period-shift", "the same period shifted by whole years (same length, same draws) gives different start offsets",
+                    {"kind": "gen-case", "case": list(c), "shifted_start": st2.isoformat(), "dates": out["dates"], "dates_shifted": twin["dates"]})
+    ctx.nontrivial.add(("twin", c[8], min(n, 400), bool(out["ems"])))
+
+
 def gen_oracle(ctx, case, out, cap_gs, allowed):
-    (dur, multi, pre_en, n, p, seed, rep, pers) = case
+    (dur, multi, pre_en, n, p, seed, rep, pers) = case[:8]
     inp = {"kind": "gen-case", "case": list(case), "pre": out["pre"], "sim": out["sim"],
            "emissions": [[s, ids] for (s, _, ids, _) in out["ems"]]}
     starts = [s for (s, _, _, _) in out["ems"]]
@@ -457,16 +537,22 @@ def run_generation(ctx, G, M, tmp):
     write_unit_file(G, folder, pop, "gram", "second", 1.0)
     rs = G.load_rate_sources(folder)
     allowed = [min(s, pop["cap"]) for s in pop["samples"]]
-    cases = gen_cases(ctx)
-    outs, lines = [], []
-    for c in cases:
-        (dur, multi, pre_en, n, p, seed, rep, pers) = c
-        out = G.run_generate(dur, multi, pre_en, n, p, seed, rs, rate_key="smp", repairable=rep, persistent=pers)
+    cases0 = gen_cases(ctx)
+    cases, outs, lines = [], [], []
+    for c in cases0:
+        (dur, multi, pre_en, n, p, seed, rep, pers) = c[:8]
+        try:
+            out = G.run_generate(dur, multi, pre_en, n, p, seed, rs, rate_key="smp", repairable=rep, persistent=pers,
+                                 sim_start=case_start(c))
+        except (Exception, SystemExit) as e:    # noqa: BLE001  a valid case must not crash the real generator
+            real_crash(ctx, "Source.generate_emissions", e, {"kind": "gen-case", "case": list(c)})
+            continue
+        cases.append(c)
         outs.append(out)
         lines.append(G.gen_line(dur, multi, pre_en, out["pre"], out["sim"]))
     model = M.run(lines)
     for c, out, ml in zip(cases, outs, model):
-        (dur, multi, pre_en, n, p, seed, rep, pers) = c
+        (dur, multi, pre_en, n, p, seed, rep, pers) = c[:8]
         ctx.evaluations += 1
         il = G.impl_gen_reply(out["ems"])
         if len(out["sim"]) != n or (pre_en and len(out["pre"]) != dur):
@@ -475,6 +561,12 @@ def run_generation(ctx, G, M, tmp):
         if ml is not None and il != ml:
             ctx.disagree("Source.generate_emissions", {"case": list(c), "pre": out["pre"], "sim": out["sim"]}, ml, il)
         gen_oracle(ctx, c, out, pop["cap"], allowed)
+        calendar_oracle(ctx, c, out)
+        if len(c) > 8 and c[8] and (n in (1, 2, 3, 59, 60, 365, 366, 367)) and dur in (0, 1, 2, 30, 365, 366):
+            try:
+                one_year_twin(ctx, G, c, out, rs)
+            except (Exception, SystemExit) as e:    # noqa: BLE001
+                real_crash(ctx, "Source.generate_emissions", e, {"kind": "gen-case", "case": list(c), "shifted": True})
         starts = [s for (s, _, _, _) in out["ems"]]
         hits = sum(out["pre"]) + sum(out["sim"])
         if out["ems"]:
@@ -482,6 +574,8 @@ def run_generation(ctx, G, M, tmp):
                                 hits > len(starts), min(len(starts), 6), min(n, 9), (n - 1) in starts))
         ctx.count("gen:" + ("multi" if multi else "single") + ("+pre" if pre_en else ""))
         ctx.count("gen:kind:" + ("rep" if rep else "nonrep") + ("" if pers else "-interm"))
+        if len(c) > 8 and c[8]:
+            ctx.count("gen:boundary-start")
     ctx.traces += len(cases)
     for c, out in list(zip(cases, outs))[:2]:
         ctx.sample({"gen_case": list(c), "pre": out["pre"], "sim": out["sim"], "impl": G.impl_gen_reply(out["ems"])})
@@ -522,10 +616,10 @@ def seed_case(ctx, G, M, tmp, tag, n_sim, np_seed, grow_to=None):
     os.makedirs(gd)
     gen = os.path.join(gd, "generator")
     seeds, force, calls = G.run_gen_seed_emis(n_sim, gen, np_seed)
-    rng_ok = all((lo, hi) == (SEEDINFO["low"], SEEDINFO["high"]) for lo, hi, _ in calls)
+    rng_ok = SEEDINFO is None or all((lo, hi) == (SEEDINFO["low"], SEEDINFO["high"]) for lo, hi, _ in calls)
     if not rng_ok:
         ctx.disagree("gen_seed_emis(randint range)", {"n_sim": n_sim}, f"{SEEDINFO}", str(calls[:3]))
-    if any(not (SEEDINFO["low"] <= v < SEEDINFO["high"]) for _, _, v in calls):
+    if SEEDINFO is not None and any(not (SEEDINFO["low"] <= v < SEEDINFO["high"]) for _, _, v in calls):
         ctx.disagree("randint semantics", {"n_sim": n_sim}, "low <= v < high", str(calls[:3]))
     draws = [v for _, _, v in calls]
     lines = [f"seeds [] [{','.join(map(str, draws))}] {n_sim}"]
@@ -630,18 +724,39 @@ def run_seeds(ctx, G, M, tmp):
 # ------------------------------------------------------------------------------------------------
 # part F: histories of runs on one generator folder (fresh, extension, smaller run)
 # ------------------------------------------------------------------------------------------------
-def history_oracle(ctx, M, steps, np_seed, res):
-    inp = {"kind": "history-case", "steps": [list(s) for s in steps], "np_seed": np_seed}
+def history_oracle(ctx, M, steps, np_seed, res, reload=False):
+    inp = {"kind": "history-case", "steps": [list(s) for s in steps], "np_seed": np_seed, "reload": reload}
     lines = []
     for st in res:
         lines.append(f"init [{','.join(map(str, st['seed_file']))}] {st['saved_before']} {int(st['fresh'])} {st['n']}")
     model = M.run(lines)
+    expected_saved, prev_saved = 0, 0
     for k, (st, ml) in enumerate(zip(res, model)):
         ctx.evaluations += 1
         il = "[" + ",".join(f"[{i},{'-' if sd is None else sd}]" for i, sd in st["trace"]) + f"] {st['saved_after']}"
         if ml is not None and ml != il:
             ctx.disagree("initialize_emissions(seed trace)", dict(inp, step=k), ml, il)
         tag = "fresh" if st["fresh"] else "extension"
+        # computed from the configuration of the history, not from the folder's own bookkeeping
+        exp_saved = st["n"] if st["fresh"] else max(expected_saved, st["n"])
+        expected_saved = exp_saved
+        if st["saved_after"] != exp_saved:
+            ctx.violate("C16:replicates:n-sim-saved", "the saved simulation count is not the number of simulations the history generated",
+                        dict(inp, step=k, saved=st["saved_after"], expected=exp_saved))
+        if st["force_returned"] != st["force_expected"]:
+            ctx.violate("C16:replicates:force-remake-flag", "gen_seed_emis reports a (non-)fresh seed file contrary to the folder it found",
+                        dict(inp, step=k, returned=st["force_returned"], folder_had_seed_file=not st["force_expected"]))
+        exp_writes = list(range(st["n"])) if st["fresh"] else list(range(min(prev_saved, st["n"]), st["n"])) if prev_saved < st["n"] else []
+        if [i for i, _ in st["trace"]] != exp_writes:
+            ctx.violate(f"C16:replicates:{tag}:generated-simulation-numbers",
+                        "the run did not generate exactly the simulation numbers it had to (all for a fresh run, the added ones for an extension)",
+                        dict(inp, step=k, generated=[i for i, _ in st["trace"]], expected=exp_writes))
+        prev_saved = exp_saved
+        for i, fp in st["returned_fps"].items():
+            if st["fps_after"].get(i) != fp:
+                ctx.violate("C16:replicates:pickle-differs-from-generated", "the scenario read back from the pickle is not the scenario that was generated",
+                            dict(inp, step=k, simulation=i))
+                break
         # (a) the seed applied before simulation i is the stored emis_preseed_val[i]
         for i, sd in st["trace"]:
             want = st["seed_file"][i] if i < len(st["seed_file"]) else None
@@ -702,8 +817,14 @@ def run_histories(ctx, G, M, tmp):
         np_seed = rng.randrange(2 ** 31)
         gd = os.path.join(tmp, f"hist_{k}", "generator")
         os.makedirs(os.path.dirname(gd))
-        res = G.run_history(steps, gd, SPECS, RATES, 60, True, np_seed)
-        history_oracle(ctx, M, steps, np_seed, res)
+        reload = k % 2 == 1      # every other history continues with the sources reloaded from a pickle
+        try:
+            res = G.run_history(steps, gd, SPECS, RATES, 60, True, np_seed, reload=reload)
+        except (Exception, SystemExit) as e:   # noqa: BLE001
+            real_crash(ctx, "gen_seed_emis+initialize_emissions", e,
+                       {"kind": "history-case", "steps": [list(x) for x in steps], "np_seed": np_seed, "reload": reload})
+            continue
+        history_oracle(ctx, M, steps, np_seed, res, reload)
     ctx.sample({"history": hists[2], "trace_last_step": res[-1]["trace"] if hists else None})
 
 
@@ -802,9 +923,13 @@ def run_wholerun(ctx, G, tmp, cfg=None):
         res = W.run_config(c, trace=False, workdir=root, repo=os.environ.get("LDAR_REPO"))
         gdir = os.path.join(root, "inputs", "generator")
         if res.rc != 0 or not os.path.isdir(gdir):
-            ctx.note(f"whole run {k} did not complete (rc {res.rc}); generator folder read-back skipped: {res.log[-200:]}")
+            ctx.broke("whole-run generator folder read-back: the real simulator did not complete",
+                      f"rc {res.rc} cfg {c}\n{res.log[-1500:]}")
             ctx.count("wholerun:not-completed")
-            continue
+            if os.path.isdir(gdir) and os.path.exists(os.path.join(gdir, "n_sim_saved.p")):
+                pass        # the generator folder is complete: still read it back below
+            else:
+                continue
         start = _date(*c["start"])
         seeds, n_saved, scen = G.read_generator_folder(gdir, start)
         wholerun_oracle(ctx, G, c, seeds, n_saved, scen, start, res.ndays)
@@ -812,29 +937,338 @@ def run_wholerun(ctx, G, tmp, cfg=None):
         ctx.traces += 1
 
 
+# ------------------------------------------------------------------------------------------------
+# part H: same-process history, shared inputs, pickling round trips (LESSONS 1, 4)
+# ------------------------------------------------------------------------------------------------
+def _unit_folder(G, tmp, tag, pop, metric, increment):
+    secs, grams, m3 = UNITDEFS
+    kind = "mass" if metric in grams else "volume"
+    folder = os.path.join(tmp, tag)
+    os.makedirs(folder)
+    write_unit_file(G, folder, pop, metric, increment, float(unit_factor(secs, grams, m3, kind, metric, increment)))
+    return folder
+
+
+def files_history_case(ctx, G, tmp, tag, specs, np_seed, k):
+    """specs = [(population, metric, increment)] * 2: two emissions files with the SAME column names and different
+    content, loaded in one process in both orders; every load must equal the same file loaded ALONE in a fresh
+    interpreter"""
+    folders = [_unit_folder(G, tmp, f"{tag}_{j}", pop, m, i) for j, (pop, m, i) in enumerate(specs)]
+    alone = G.alone_jobs([{"folder": f, "np_seed": np_seed, "k": k} for f in folders])
+    inp = {"kind": "history-files-case", "specs": [[pop, m, i] for (pop, m, i) in specs], "np_seed": np_seed, "k": k}
+    for j, a in enumerate(alone):
+        if "error" in a:
+            ctx.broke("same-process history: reference run in a fresh interpreter failed", a["error"])
+            return
+    for order in ([0, 1], [1, 0], [0, 1, 0]):
+        for pos, j in enumerate(order):
+            ctx.evaluations += 1
+            try:
+                got = G.rates_of_folder(folders[j], np_seed, k)
+            except (Exception, SystemExit) as e:   # noqa: BLE001
+                real_crash(ctx, "process_emission_sources", e, dict(inp, order=order, position=pos))
+                continue
+            if got != alone[j]:
+                col = next((c for c in got if got[c] != alone[j].get(c)), "?")
+                ctx.violate("C16:history:emissions-file-depends-on-earlier-file",
+                            "an emissions file gives different rate sources when another file with the same column names "
+                            "was loaded before it in the same process",
+                            dict(inp, order=order, position=pos, column=col, in_history=got.get(col), alone=alone[j].get(col)))
+            ctx.nontrivial.add(("files-history", tuple(order), pos, specs[j][1], specs[j][2]))
+    ctx.traces += 1
+
+
+def source_history_case(ctx, G, rs, rng):
+    """one real Source object generating several simulation numbers / the same number again, and two Sources with
+    the same id and different parameters in both orders: every call equals the same call on a fresh object"""
+    specs = [(rng.randint(0, 6), rng.random() < 0.5, rng.choice([0.3, 0.5, 1.0])) for _ in range(2)]
+    calls = [(rng.choice([0, 1, 0, 2]), rng.randrange(2 ** 31), rng.randint(1, 12), rng.random() < 0.7) for _ in range(4)]
+    for order in ([0, 1], [1, 0]):
+        objs = {}
+        for which in order:
+            (dur, multi, p) = specs[which]
+            for (simno, seed, n, pre_en) in calls:
+                ctx.evaluations += 1
+                inp = {"kind": "history-source-case", "specs": [list(x) for x in specs], "calls": [list(x) for x in calls],
+                       "order": order, "at": [which, simno, seed, n, pre_en]}
+                try:
+                    src = objs.get(which) or G.make_source(dur, multi, p, rate_source="smp", sid="S")
+                    objs[which] = src
+                    a = G.run_generate(dur, multi, pre_en, n, p, seed, rs, rate_key="smp", sim_number=simno, source=src)
+                    b = G.run_generate(dur, multi, pre_en, n, p, seed, rs, rate_key="smp", sim_number=simno)
+                except (Exception, SystemExit) as e:   # noqa: BLE001
+                    real_crash(ctx, "Source.generate_emissions", e, inp)
+                    continue
+                if a["ems"] != b["ems"] or a["pre"] != b["pre"] or a["sim"] != b["sim"]:
+                    ctx.violate("C16:history:source-reuse",
+                                "a Source that already generated emissions (or a same-named Source built earlier) gives a "
+                                "different scenario than a fresh Source for the same draws",
+                                dict(inp, reused=a["ems"][:6], fresh=b["ems"][:6]))
+    ctx.nontrivial.add(("source-history", specs[0][1], specs[1][1]))
+
+
+def shared_input_checks(ctx, G, tmp):
+    import copy
+    import pickle
+    from virtual_world.sources import Source
+    SFC, pdc = G.SFC, G.pdc
+    # two Sources from the same dictionaries
+    info = {SFC.REPAIRABLE: True, SFC.PERSISTENT: True, SFC.ACTIVE_DUR: 1, SFC.INACTIVE_DUR: 0}
+    prop = {SFC.EMIS_ERS: "smp", SFC.EMIS_EPR: 0.5, SFC.EMIS_DUR: 4, SFC.MULTI_EMISSIONS: False,
+            SFC.REPAIR_DELAY: {pdc.Common_Params.VAL: 14}, SFC.REPAIR_COST: {pdc.Common_Params.VAL: 200.0},
+            pdc.Common_Params.METH_SPECIFIC: {SFC.SPATIAL_PLACEHOLDER: {"M": 1.0}, SFC.TEMPORAL_PLACEHOLDER: {"M": 0.5}}}
+    info0, prop0 = copy.deepcopy(info), copy.deepcopy(prop)
+    a, b = Source("S", info, prop), Source("S", info, prop)
+    ctx.evaluations += 2
+    if info != info0 or prop != prop0:
+        ctx.violate("C16:shared-input-mutated:Source.__init__", "building a Source changes the dictionaries it is built from",
+                    {"kind": "shared-input-case", "what": "Source.__init__", "before": str(prop0), "after": str(prop)})
+    da = {k: v for k, v in a.__dict__.items()}
+    db = {k: v for k, v in b.__dict__.items()}
+    if da != db:
+        ctx.violate("C16:shared-input:second-object-differs", "two Sources built from the same dictionaries differ",
+                    {"kind": "shared-input-case", "what": "Source x2", "first": str(da), "second": str(db)})
+    # two sample sources from one list; the converter must not touch its input list
+    samples = ["3.6", "7.2", "0.5"]
+    s0 = list(samples)
+    x = G.ESP.EmissionsSourceSample("c", "kilogram", "hour", samples, 5.0)
+    y = G.ESP.EmissionsSourceSample("c", "kilogram", "hour", samples, 5.0)
+    vals = [1.5, 2.5]
+    v0 = list(vals)
+    conv = G.ESP.EmissionsSource("c").unit_conversion(vals, "kilogram", "hour")
+    ctx.evaluations += 3
+    if samples != s0 or vals != v0 or conv is vals:
+        ctx.violate("C16:shared-input-mutated:sample-list", "building a sample source / converting a list changes (or returns) the input list",
+                    {"kind": "shared-input-case", "what": "sample list", "samples": samples, "values": vals})
+    if x._samples != y._samples or x._max_emis_rate != y._max_emis_rate:
+        ctx.violate("C16:shared-input:second-object-differs", "two sample sources built from the same list differ",
+                    {"kind": "shared-input-case", "what": "EmissionsSourceSample x2", "first": x._samples, "second": y._samples})
+    # one data frame processed twice; rate-source dictionary untouched by generation
+    folder = _unit_folder(G, tmp, "shared_df", {"samples": [0.5, 2.0, 9.0], "cap": 3.0, "mu": 0.1, "sigma": 1.0, "dcap": 2.0},
+                          "tonne", "day")
+    frame = G.ESP.read_in_emissions_sources_file(G.pathlib.Path(folder), {esp_key(G)[0]: {esp_key(G)[1]: "emissions_file.csv"}})
+    f0 = frame.copy(deep=True)
+    r1 = G.ESP.process_emission_source_file(frame)
+    r2 = G.ESP.process_emission_source_file(frame)
+    ctx.evaluations += 2
+    if not frame.equals(f0):
+        ctx.violate("C16:shared-input-mutated:emissions-frame", "processing the emissions data frame changes it",
+                    {"kind": "shared-input-case", "what": "emissions frame"})
+    if r1["smp"]._samples != r2["smp"]._samples or r1["smp"]._max_emis_rate != r2["smp"]._max_emis_rate:
+        ctx.violate("C16:shared-input:second-object-differs", "processing the same emissions frame twice gives different sources",
+                    {"kind": "shared-input-case", "what": "process_emission_source_file x2"})
+    snap = (list(r1["smp"]._samples), r1["smp"]._max_emis_rate)
+    for k in range(30):
+        G.run_generate(3, k % 2 == 0, True, 20, 0.6, k, r1, rate_key="smp")
+    if (list(r1["smp"]._samples), r1["smp"]._max_emis_rate) != snap:
+        ctx.violate("C16:shared-input-mutated:rate-source", "generating emissions changes the shared rate source",
+                    {"kind": "shared-input-case", "what": "rate source after generation"})
+    # pickling round trips (argument order of Source.__reduce__ / _reconstruct; rate sources; generated lists)
+    src = G.make_source(5, False, 0.5, rate_source="smp")
+    src2 = pickle.loads(pickle.dumps(src))
+    ctx.evaluations += 3
+    if src.__dict__ != src2.__dict__:
+        diff = sorted(k for k in set(src.__dict__) | set(src2.__dict__) if src.__dict__.get(k, "<absent>") != src2.__dict__.get(k, "<absent>"))
+        ctx.violate("C16:pickle-roundtrip:Source", "a Source changes in a pickling round trip",
+                    {"kind": "shared-input-case", "what": "Source round trip", "attributes": diff,
+                     "before": {k: str(src.__dict__.get(k)) for k in diff}, "after": {k: str(src2.__dict__.get(k)) for k in diff}})
+    try:
+        a = G.run_generate(5, False, True, 40, 0.5, 11, r1, rate_key="smp", source=src)
+        b = G.run_generate(5, False, True, 40, 0.5, 11, pickle.loads(pickle.dumps(r1)), rate_key="smp", source=src2)
+        if a["ems"] != b["ems"]:
+            ctx.violate("C16:pickle-roundtrip:generation", "a reloaded Source / rate source generates a different scenario for the same draws",
+                        {"kind": "shared-input-case", "what": "generate after round trip", "original": a["ems"][:6], "reloaded": b["ems"][:6]})
+        src3 = pickle.loads(pickle.dumps(src))
+        back = [((e._start_date - G.SIM_START).days, e._emissions_id, float(e._rate)) for e in src3._generated_emissions[0]]
+        if back != [(s_, i_, r_) for (s_, _, i_, r_) in a["ems"]]:
+            ctx.violate("C16:pickle-roundtrip:generated-list", "the stored pending list changes in a pickling round trip",
+                        {"kind": "shared-input-case", "what": "pending list round trip"})
+    except (Exception, SystemExit) as e:   # noqa: BLE001
+        real_crash(ctx, "pickle round trip", e, {"kind": "shared-input-case", "what": "round trip"})
+    ctx.nontrivial.add(("shared-input",))
+
+
+def esp_key(G):
+    from constants.file_processing_const import Emissions_Source_Processing_Const as esp
+    return esp.EMISSION, esp.EMISSION_FILE
+
+
+def run_same_process(ctx, G, M, tmp, rs):
+    rng = ctx.rng
+    units = [("kilogram", "hour"), ("tonne", "day"), ("gram", "second"), ("pound", "minute"), ("cubic feet", "day"),
+             ("kilogram", "second"), ("liter", "hour")]
+    for k in range(ctx.pick(2, 8)):
+        (m1, i1), (m2, i2) = rng.sample(units, 2)
+        files_history_case(ctx, G, tmp, f"fh{k}", [(population(rng), m1, i1), (population(rng), m2, i2)],
+                           rng.randrange(2 ** 31), 8)
+    for _ in range(ctx.pick(60, 1500)):
+        source_history_case(ctx, G, rs, rng)
+    try:
+        shared_input_checks(ctx, G, tmp)
+    except (Exception, SystemExit) as e:   # noqa: BLE001
+        real_crash(ctx, "shared-input checks", e, {"kind": "shared-input-case", "what": "crash"})
+
+
+# ------------------------------------------------------------------------------------------------
+# part J: names and shapes of emissions files (LESSONS 3)
+# ------------------------------------------------------------------------------------------------
+def shapes_case(ctx, G, M, tmp, tag, rng):
+    """column names with underscores / digits / prefixes of each other / marker-like names / blanks, mixed-case data-use
+    and unit cells, columns of different lengths, one-sample columns, zero samples, a maximum below every sample and a
+    maximum of zero; every column is judged from the FILE CONTENT (exact model + independent expectation)"""
+    secs, grams, m3 = UNITDEFS
+    names = ["smp", "smp_1", "smp_10", "smp_1_x", "1", "dist", "sample", " padded ", "NA_src", "kept", "a-b.c"]
+    rng.shuffle(names)
+    cols, meta = [], []
+    for name in names[:rng.randint(3, 8)]:
+        metric, increment = rng.choice([("gram", "second"), ("kilogram", "hour"), ("tonne", "day"), ("kilogram", "second"),
+                                        ("gram", "hour"), ("pound", "minute")])
+        f = float(unit_factor(secs, grams, m3, "mass", metric, increment))
+        kind = rng.choice(["sample", "sample", "dist"])
+        mcell = rng.choice([metric, metric.capitalize(), " " + metric + " "]) if (metric, increment) != ("gram", "second") else metric
+        icell = rng.choice([increment, increment.upper()]) if (metric, increment) != ("gram", "second") else increment
+        use = rng.choice([kind, kind.capitalize(), kind.upper()])
+        if kind == "sample":
+            vals = [rng.choice([0.0, 0.25, 1.0, 2.5, 40.0, rng.randint(1, 999) / 100.0]) for _ in range(rng.choice([1, 1, 2, 5, 9]))]
+            cap = rng.choice([0.0, 0.1, 3.0, 1e5])
+            cols.append(dict(name=name, kind=use, cap=repr(cap * f), metric=mcell, increment=icell, values=[repr(v * f) for v in vals]))
+            meta.append(("sample", name, metric, increment, vals, cap))
+        else:
+            mu, sigma = rng.randint(-100, 100) / 100.0, rng.randint(30, 150) / 100.0
+            cap = math.exp(mu) * rng.choice([0.5, 2.0, 1e6])
+            cols.append(dict(name=name, kind=use, cap=repr(cap * f), metric=mcell, increment=icell,
+                             values=[repr(mu + math.log(f)), repr(sigma)]))
+            meta.append(("dist", name, metric, increment, (mu, sigma), cap))
+    folder = os.path.join(tmp, tag)
+    os.makedirs(folder)
+    G.write_emissions_file(folder, cols)
+    inp = {"kind": "shapes-case", "columns": cols}
+    try:
+        srcs = G.load_rate_sources(folder)
+    except (Exception, SystemExit) as e:   # noqa: BLE001
+        real_crash(ctx, "process_emission_sources", e, inp)
+        return
+    ctx.evaluations += 1
+    want = sorted(m[1].strip() for m in meta)
+    if sorted(srcs) != want:
+        ctx.violate("C16:shapes:column-names", "the rate sources are not keyed by the (stripped) column names of the file",
+                    dict(inp, keys=sorted(srcs), expected=want))
+        return
+    lines, checks = [], []
+    for (kind, name, metric, increment, body, cap), col in zip(meta, cols):
+        src = srcs[name.strip()]
+        drift = 1.0 if increment == "second" else DRIFT_TIME
+        ctx.evaluations += 1
+        if kind == "sample":
+            if not isinstance(src, G.ESP.EmissionsSourceSample) or len(src._samples) != len(body):
+                ctx.violate("C16:shapes:sample-column", "a sample column is not read as a sample source with one entry per value",
+                            dict(inp, column=name, got=type(src).__name__, n=len(getattr(src, "_samples", []))))
+                continue
+            for v, got, cell in zip(body, src._samples, col["values"]):
+                # independent expectation from the file content: value in g/s times the proved drift of the table
+                if abs(float(got) - v * drift) > SAME * max(abs(v * drift), 1e-300) and not (v == 0 and got == 0):
+                    ctx.violate("C16:shapes:sample-value", "a sample of a column with an unusual name / shape is not the g/s value of the cell",
+                                dict(inp, column=name, cell=cell, got=float(got), expected=v * drift))
+                    break
+                lines.append(f"uconv {G.en(metric)} {G.en(increment)} {G.ftok(Fraction(float(cell)))}")
+                checks.append((name, float(got), inp))
+            G.np.random.seed(5)
+            for _ in range(6):
+                r = float(src.get_a_rate())
+                if r > cap * drift * (1 + SAME) + 1e-300:
+                    ctx.violate("C16:cap-exceeded:shapes", "rate above the declared maximum", dict(inp, column=name, rate=r, cap_gs=cap))
+                    break
+        else:
+            if not isinstance(src, G.ESP.EmissionsSourceDist):
+                ctx.violate("C16:shapes:dist-column", "a distribution column is not read as a distribution source",
+                            dict(inp, column=name, got=type(src).__name__))
+                continue
+            G.np.random.seed(5)
+            for _ in range(6):
+                r = float(src.get_a_rate())
+                if r > cap * drift * (1 + SAME):
+                    ctx.violate("C16:cap-exceeded:shapes", "rate above the declared maximum", dict(inp, column=name, rate=r, cap_gs=cap))
+                    break
+        ctx.nontrivial.add(("shapes", kind, name, metric, increment, len(body) if kind == "sample" else 0, cap == 0))
+    for ml, (name, got, inp_) in zip(M.run(lines), checks):
+        ctx.evaluations += 1
+        if ml is not None and not within(got, parse_frac(ml)):
+            ctx.disagree("EmissionsSourceSample(shapes)", dict(inp_, column=name), ml, repr(got))
+    ctx.traces += 1
+
+
+def run_shapes(ctx, G, M, tmp):
+    for k in range(ctx.pick(25, 400)):
+        shapes_case(ctx, G, M, tmp, f"shape{k}", ctx.rng)
+
+
 UNITDEFS = None
 SEEDINFO = None
 RATES = None
 
 
+def fallback_units(G):
+    """the tables of the imported module, used when the ast extractor no longer recognises the source"""
+    import inspect
+    d = {k: p.default for k, p in inspect.signature(G.UC.gas_convert).parameters.items()}
+    return {"tables": G.live_tables(), "spans": {}, "defaults": d, "gas_constant": None, "grams_per_tonne": None,
+            "fingerprint": "unavailable", "gram": "gram", "second": "second", "unit_names": {}}
+
+
 def setup(ctx):
+    """regenerate the tables; an unexpected shape of the source is a BROKEN OBLIGATION (the generated Lean files
+    keep their last content, the correspondence and the oracles continue on the imported module), never exit 2"""
     global UNITDEFS, SEEDINFO, RATES
+    from harness.extract import genstate as GS
+    changed, fps = [], {}
+    u = s = None
     try:
-        u, s, changed = EX.regenerate()
+        u = EX.read_unit_tables()
+    except (Exception, SystemExit) as e:   # noqa: BLE001
+        ctx.broke("extractor: unit tables (unit_converter.py / general_const.py)", f"{type(e).__name__}: {e}")
+    try:
+        s = EX.read_seed_range()
+        s["index"] = EX.read_seed_index()
+    except (Exception, SystemExit) as e:   # noqa: BLE001
+        ctx.broke("extractor: seed procedure (preseed.py / initialize_emissions.py)", f"{type(e).__name__}: {e}")
+        s = None
+    try:
+        if u is not None and EX._write_if_changed(os.path.join(EX.LEAN_GEN, "Units.lean"), EX.render_units(u)):
+            changed.append("Generated/Units.lean")
+        if s is not None:
+            if s["low"] < 0 or s["high"] < 0:
+                raise EX.ExtractError("negative randint bounds are outside the seed model")
+            if EX._write_if_changed(os.path.join(EX.LEAN_GEN, "EmisSeed.lean"), EX.render_seed(s, s["index"])):
+                changed.append("Generated/EmisSeed.lean")
+    except (Exception, SystemExit) as e:   # noqa: BLE001
+        ctx.broke("extractor: writing the generated Lean tables", f"{type(e).__name__}: {e}")
+    try:
+        st, ch = GS.regenerate()
+        changed += ch
+        ctx.extra["cross_case_state_table"] = {k: [list(x) if isinstance(x, tuple) else x for x in v] for k, v in st.items()}
+    except (Exception, SystemExit) as e:   # noqa: BLE001
+        ctx.broke("extractor: cross-case state table", f"{type(e).__name__}: {e}")
+    try:
         fps = code_fingerprints()
-    except EX.ExtractError as e:
-        raise core.InfraError(f"extractor: {e}")
-    fps["unit_converter.gas_convert(body)"] = u["fingerprint"]
-    fps["preseed.gen_seed_emis"] = s["fingerprint"]
-    fps["initialize_emissions.initialize_emissions"] = s["index"]["fingerprint"]
-    ctx.extra["extracted"] = {"regenerated_files": changed, "fingerprints": fps, "seed_range": [s["low"], s["high"]],
+    except (Exception, SystemExit) as e:   # noqa: BLE001
+        ctx.broke("extractor: fingerprints of the modelled functions", f"{type(e).__name__}: {e}")
+    if u is None:
+        from harness.adapters import gen as G
+        u = fallback_units(G)
+    else:
+        fps["unit_converter.gas_convert(body)"] = u["fingerprint"]
+    if s is not None:
+        fps["preseed.gen_seed_emis"] = s["fingerprint"]
+        fps["initialize_emissions.initialize_emissions"] = s["index"]["fingerprint"]
+    ctx.extra["extracted"] = {"regenerated_files": changed, "fingerprints": fps,
+                              "seed_range": [s["low"], s["high"]] if s else None,
                               "seed_index": {"fresh_loop": s["index"]["fresh"]["index_src"],
-                                             "extension_loop": s["index"]["extend"]["index_src"]},
+                                             "extension_loop": s["index"]["extend"]["index_src"]} if s else None,
                               "seconds_per_year": str(u["tables"]["increments"].get("second"))}
     drift = sorted(k for k, v in fps.items() if FINGERPRINTS.get(k) != v)
     if drift:
         ctx.note("modelled code changed since the model was written (fingerprint drift): " + ", ".join(drift)
-                 + " — correspondence runs with the thorough budget")
+                 + " — correspondence runs with a larger budget")
     UNITDEFS = unit_defs(u)
     SEEDINFO = s
     return u, s, drift
@@ -869,21 +1303,33 @@ def run(ctx):
     M = Model(ctx)
     tmp = tempfile.mkdtemp(prefix="c16_")
     try:
-        check_tables(ctx, G, M, u, s)
-        run_converter(ctx, G, M, u)
-        run_unit_conversion_exact(ctx, G, M, u)
-        run_rate_sources(ctx, G, M, u, tmp)
+        def part(name, fn):
+            try:
+                fn()
+            except core.InfraError:
+                raise
+            except (Exception, SystemExit) as e:   # noqa: BLE001  an unexpected shape of the code: broken obligation, search continues
+                import traceback as _tb
+                ctx.broke(f"check part '{name}' could not be driven on the current code", _tb.format_exc())
+                ctx.count("part-crashed:" + name)
+
+        part("tables", lambda: check_tables(ctx, G, M, u, s))
+        part("converter", lambda: run_converter(ctx, G, M, u))
+        part("unit_conversion(exact)", lambda: run_unit_conversion_exact(ctx, G, M, u))
+        part("rate sources", lambda: run_rate_sources(ctx, G, M, u, tmp))
         folder = os.path.join(tmp, "seed_rates")
         os.makedirs(folder)
         write_unit_file(G, folder, {"samples": [1.0, 2.0, 3.5], "cap": 3.0, "mu": 0.0, "sigma": 1.0, "dcap": 2.0},
                         "gram", "second", 1.0)
         RATES = {"r": G.load_rate_sources(folder)["smp"]}
-        run_generation(ctx, G, M, tmp)
-        run_seeds(ctx, G, M, tmp)
-        run_histories(ctx, G, M, tmp)
-        check_nonsi_table(ctx, u)
-        run_bad_production_rates(ctx, G)
-        run_wholerun(ctx, G, tmp)
+        part("generation", lambda: run_generation(ctx, G, M, tmp))
+        part("seeds", lambda: run_seeds(ctx, G, M, tmp))
+        part("histories", lambda: run_histories(ctx, G, M, tmp))
+        part("same-process history", lambda: run_same_process(ctx, G, M, tmp, G.load_rate_sources(folder)))
+        part("file shapes", lambda: run_shapes(ctx, G, M, tmp))
+        part("non-SI table", lambda: check_nonsi_table(ctx, u))
+        part("production rates", lambda: run_bad_production_rates(ctx, G))
+        part("whole run", lambda: run_wholerun(ctx, G, tmp))
     finally:
         shutil.rmtree(tmp, ignore_errors=True)
     ctx.assumptions.append("float results of the rate-source classes compared with the exact model inside a relative "
@@ -913,7 +1359,11 @@ def replay(ctx, data):
         RATES = {"r": rs["smp"]}
         if kind == "gen-case":
             c = tuple(inp["case"])
-            out = G.run_generate(c[0], c[1], c[2], c[3], c[4], c[5], rs, rate_key="smp", repairable=c[6], persistent=c[7])
+            out = G.run_generate(c[0], c[1], c[2], c[3], c[4], c[5], rs, rate_key="smp", repairable=c[6], persistent=c[7],
+                                 sim_start=case_start(c))
+            print("period start:", case_start(c) or G.SIM_START, "calendar dates:", out["dates"])
+            calendar_oracle(ctx, c, out)
+            one_year_twin(ctx, G, c, out, rs)
             print("pre draws:", out["pre"], "sim draws:", out["sim"])
             print("pending list (start, id):", [(a, b) for (a, b, _, _) in out["ems"]])
             gen_oracle(ctx, c, out, pop0["cap"], [min(x, pop0["cap"]) for x in pop0["samples"]])
@@ -961,11 +1411,31 @@ def replay(ctx, data):
             steps = [tuple(x) for x in inp["steps"]]
             gd = os.path.join(tmp, "hist", "generator")
             os.makedirs(os.path.dirname(gd))
-            res = G.run_history(steps, gd, SPECS, RATES, 60, True, inp["np_seed"])
+            res = G.run_history(steps, gd, SPECS, RATES, 60, True, inp["np_seed"], reload=inp.get("reload", False))
             for st in res:
                 print("run n=%d %s: seed file %s, (simulation, seed applied) %s" % (
                     st["n"], "fresh" if st["fresh"] else "non-fresh", st["seed_file"], st["trace"]))
-            history_oracle(ctx, M, steps, inp["np_seed"], res)
+            history_oracle(ctx, M, steps, inp["np_seed"], res, inp.get("reload", False))
+        elif kind == "history-files-case":
+            specs = [(pp, m, i) for pp, m, i in inp["specs"]]
+            files_history_case(ctx, G, tmp, "r", specs, inp["np_seed"], inp["k"])
+        elif kind == "history-source-case":
+            import random as _r
+            for sd in range(40):
+                source_history_case(ctx, G, rs, _r.Random(sd))
+        elif kind == "shared-input-case":
+            shared_input_checks(ctx, G, tmp)
+        elif kind == "shapes-case":
+            folder2 = os.path.join(tmp, "shape")
+            os.makedirs(folder2)
+            G.write_emissions_file(folder2, inp["columns"])
+            srcs = G.load_rate_sources(folder2)
+            for name, src in sorted(srcs.items()):
+                print(repr(name), type(src).__name__, getattr(src, "_samples", None), src._max_emis_rate)
+            import random as _r
+            M = Model(ctx)
+            for sd in range(60):
+                shapes_case(ctx, G, M, tmp, f"rs{sd}", _r.Random(sd))
         elif kind == "table-entry":
             check_nonsi_table(ctx, u)
         elif kind == "bad-rate-case":
